@@ -1086,6 +1086,32 @@ func (s *sim) adversary(alphabet []int64) {
 			for _, bb := range byz {
 				j = append(j, s.forged(qbft.MsgCommit, bb, r, v, 0, 0, nil))
 			}
+			switch verifrt.Intn("a", 6) {
+			case 3: // pad to a quorum with copies of the Byzantine COMMITs (one source counted repeatedly)
+				for k := 0; len(j) < s.q; k++ {
+					j = append(j, j[len(j)-1-k%len(byz)])
+				}
+				verifrt.Probe("adv:forged-decided-repeated-source")
+			case 4: // votes of the wrong phase: observed PREPAREs (and Byzantine ones) for the value in place of COMMITs
+				j = j[:0]
+				for _, m := range s.observed(func(m msg) bool { return m.typ == qbft.MsgPrepare }) {
+					if mixed || (m.round == r && m.val == v) {
+						j = append(j, m)
+					}
+				}
+				for _, bb := range byz {
+					j = append(j, s.forged(qbft.MsgPrepare, bb, r, v, 0, 0, nil))
+				}
+				verifrt.Probe("adv:forged-decided-wrong-phase")
+			case 5: // a quorum of ROUND-CHANGEs / PRE-PREPAREs naming the value
+				j = j[:0]
+				for _, m := range s.observed(func(m msg) bool { return (m.typ == qbft.MsgRoundChange || m.typ == qbft.MsgPrePrepare) && m.round == r }) {
+					j = append(j, m)
+				}
+				for _, bb := range byz {
+					j = append(j, s.forged(qbft.MsgRoundChange, bb, r, v, 0, 0, nil))
+				}
+			}
 			m := s.forged(qbft.MsgDecided, b, r, v, 0, 0, j)
 			for _, to := range honest {
 				if verifrt.Intn("a", 2) == 0 {
